@@ -656,7 +656,7 @@ func c17CloseSeq(e pathExit, seq []string, badp *string, notifiedp *int) {
 // bytes into another.
 func ruleFreshCopyBuffers(w *World, r *Report, rule string) {
 	var fns []*ssa.Function
-	for fn := range allModuleFuncs(w, w.SSA()) {
+	for _, fn := range sortedModuleFuncs(w, w.SSA()) {
 		fns = append(fns, fn)
 	}
 	sort.Slice(fns, func(i, j int) bool { return fns[i].Pos() < fns[j].Pos() })
@@ -736,7 +736,7 @@ func ruleSharedSessionClosers(w *World, r *Report, rule string) {
 		return
 	}
 	n := 0
-	for fn := range allModuleFuncs(w, w.SSA()) {
+	for _, fn := range sortedModuleFuncs(w, w.SSA()) {
 		for _, c := range callsIn(fn) {
 			t := closeTarget(w, c)
 			if t == nil {
@@ -802,7 +802,7 @@ func ruleSharedSessionClosers(w *World, r *Report, rule string) {
 	}
 	ncall := 0
 	bad := ""
-	for fn := range allModuleFuncs(w, w.SSA()) {
+	for _, fn := range sortedModuleFuncs(w, w.SSA()) {
 		for _, c := range callsIn(fn) {
 			if sCallee(c) != shutdown {
 				continue
@@ -868,7 +868,7 @@ func onlyFromShutdown(w *World, fn *ssa.Function, shutdown *types.Func, depth in
 		return false
 	}
 	n := 0
-	for caller := range allModuleFuncs(w, w.SSA()) {
+	for _, caller := range sortedModuleFuncs(w, w.SSA()) {
 		for _, c := range callsIn(caller) {
 			if sCallee(c) == obj && !c.Common().IsInvoke() {
 				n++
@@ -899,7 +899,7 @@ func onlyCalledFromNamed(w *World, fn *ssa.Function, name string, depth int) boo
 		return false
 	}
 	n := 0
-	for caller := range allModuleFuncs(w, w.SSA()) {
+	for _, caller := range sortedModuleFuncs(w, w.SSA()) {
 		for _, c := range callsIn(caller) {
 			if sCallee(c) == obj && !c.Common().IsInvoke() {
 				if _, isGo := c.(*ssa.Go); isGo {
@@ -959,7 +959,7 @@ func ruleSmuxBuffers(w *World, r *Report, rule string) {
 	const defRecv, defStream = 4194304, 65536
 	n := 0
 	var bad []string
-	for fn := range allModuleFuncs(w, w.SSA()) {
+	for _, fn := range sortedModuleFuncs(w, w.SSA()) {
 		allInstrs(fn, func(in ssa.Instruction) {
 			st, ok := in.(*ssa.Store)
 			if !ok {
@@ -1007,7 +1007,7 @@ func ruleRouterMiddleware(w *World, r *Report, rule string) {
 		"ThrottleWithOpts": "bounds the number of requests in flight", "Timeout": "bounds the duration of a request"}
 	n := 0
 	var bad []string
-	for fn := range allModuleFuncs(w, w.SSA()) {
+	for _, fn := range sortedModuleFuncs(w, w.SSA()) {
 		f0 := fn
 		for f0.Parent() != nil {
 			f0 = f0.Parent()
